@@ -187,8 +187,52 @@ def pin_rows(items):
     return '[' + ', '.join(rows) + ']'
 
 
+NORMALISE = "angle = (angle + 180) % 360 - 180"
+
+
+def rotation_table(repo, unparsed):
+    """Cpt.R: the `Rdict` literal and whether the angle is normalised into [-180, 180) before the lookup"""
+    path = os.path.join(repo, 'lcapy', 'schematics/components/cpt.py')
+    rows, norm = [], False
+    try:
+        with warnings.catch_warnings():
+            warnings.simplefilter('ignore')
+            tree = ast.parse(open(path).read())
+        cpt = [n for n in tree.body if isinstance(n, ast.ClassDef) and n.name == 'Cpt'][0]
+        fn = [n for n in cpt.body if isinstance(n, ast.FunctionDef) and n.name == 'R'][0]
+        body = [st for st in fn.body if not (isinstance(st, ast.Expr) and isinstance(st.value, ast.Constant))]
+        want_first = ast.dump(ast.parse("angle = self.angle + angle_offset").body[0])
+        want_norm = ast.dump(ast.parse(NORMALISE).body[0])
+        want_if = ast.dump(ast.parse("if angle in Rdict:\n    return array(Rdict[angle])").body[0])
+        if ast.dump(body[0]) != want_first:
+            raise Unparsed('Cpt.R: first statement')
+        rest = body[1:]
+        seen_dict = False
+        seen_if = False
+        for st in rest:
+            d = ast.dump(st)
+            if d == want_norm and not seen_if:
+                norm = True
+            elif isinstance(st, ast.Assign) and isinstance(st.targets[0], ast.Name) and st.targets[0].id == 'Rdict':
+                for k, v in ev(st.value, {}):
+                    (a, b), (c, dd) = v
+                    rows.append((int(k), int(a), int(b), int(c), int(dd)))
+                seen_dict = True
+            elif d == want_if:
+                seen_if = True
+            elif seen_dict and isinstance(st, (ast.Assign, ast.Return)) and 'angle' not in [t.id for t in getattr(st, 'targets', []) if isinstance(t, ast.Name)]:
+                pass      # the cos/sin fallback: t = angle / 180.0 * pi; return array(...)
+            else:
+                raise Unparsed('Cpt.R: statement at line %d' % st.lineno)
+    except (Unparsed, IndexError, ValueError, TypeError, UnboundLocalError) as e:
+        unparsed.append('Cpt.R: %s' % e)
+        rows, norm = [], False
+    return rows, norm
+
+
 def generate(repo):
     classes, order, unparsed = collect(repo)
+    rot_rows, rot_norm = rotation_table(repo, unparsed)
     rows = []
     emitted = []
     for cname in order:
@@ -275,8 +319,13 @@ def generate(repo):
             'import Lcapy.Model.LayoutTypes\n'
             'namespace Lcapy.Layout.Gen\nopen Lcapy.Layout\n\n'
             '/-- (class names sharing the row, row) -/\n'
-            'def table : List (List String × ClassRow) := [\n' + ',\n'.join(grouped) + '\n]\n\nend Lcapy.Layout.Gen\n')
-    return text, {'classes': emitted, 'unparsed': unparsed}
+            'def table : List (List String × ClassRow) := [\n' + ',\n'.join(grouped) + '\n]\n\n'
+            '/-- Cpt.R: `Rdict` as (angle, a, b, c, d) for the matrix ((a, b), (c, d)) -/\n'
+            'def rotTable : List (Int × Int × Int × Int × Int) := [%s]\n\n'
+            '/-- Cpt.R normalises the angle with `%s` before the lookup -/\n'
+            'def rotNormalise : Bool := %s\n\nend Lcapy.Layout.Gen\n'
+            % (', '.join('(%d, %d, %d, %d, %d)' % r for r in rot_rows), NORMALISE, lean_bool(rot_norm)))
+    return text, {'classes': emitted, 'unparsed': unparsed, 'rot_keys': [r[0] for r in rot_rows], 'rot_normalise': rot_norm}
 
 
 if __name__ == '__main__':
